@@ -1,5 +1,6 @@
 """C14 - generating results does not change the intermediate representation."""
 import common as C
+import imp_run
 import res_run
 
 
@@ -21,9 +22,26 @@ def main(tier: str) -> int:
     new = [m for c, m in changed if not (c & 128) or (c & 1)]
     new += [m for c, m in regen_diff if not (c & 128) or (c & 1)]
     known = [m for c, m in changed if (c & 128) and not (c & 1)]
+    # multi-module projects: result generation must not add or drop entries of any module's IR, and what it does to the
+    # sets must be what the model predicts (imp correspondence bit 0)
+    ires = imp_run.run(tier)
+    imp_new, imp_cases, imp_corr = [], 0, []
+    for code, m in ires["cases"]:
+        if m.get("ir_keys_before") is None or m.get("ir_keys_after") is None:
+            continue
+        imp_cases += 1
+        if m["ir_keys_before"] != m["ir_keys_after"]:
+            diff = {k: sorted(set(m["ir_keys_after"].get(k, [])) ^ set(m["ir_keys_before"].get(k, []))) for k in set(m["ir_keys_before"]) | set(m["ir_keys_after"])}
+            imp_new.append({"why": "result generation added or removed function entries of a module's IR", "project": m["project"], "files": m["files"],
+                            "entries_changed": {k: v for k, v in diff.items() if v}})
+        if code is not None and (code & 1):
+            imp_corr.append({"project": m["project"], "files": m["files"]})
+    for m in imp_new[:3]:
+        V.violation({"property": prop, **m})
+    corr_fail = corr_fail + imp_corr
     for m in new[:5]:
         V.violation({"property": prop, "why": "the IR changed (or a second generation differs) outside the listed finding class or beyond what the model predicts", **m})
-    if not new:
+    if not new and not imp_new:
         if corr_fail:
             V.violation({"property": prop, "broken": "correspondence suite res (model/Results.v vs generate_results_from_ir, incl. the IR after generation)",
                          "disagreements": len(corr_fail), "first": corr_fail[0]}, failing_input=False)
@@ -40,9 +58,9 @@ def main(tier: str) -> int:
         "trusted_base": C.TRUSTED_BASE_COMMON,
         "evaluations": len(cases), "distinct_nontrivial": len({m["source"] for c, m in cases if c & 128}),
         "rule": "the C03 graph suite; per program the IR (gets/sets/dels per function, call records) is snapshotted before and after generate_results_from_ir and results are generated twice; non-trivial = at least one resolvable call",
-        "programs": len(res["groups"]), "traces_validated_against_impl": len(cases), "disagreements_checked": len(corr_fail),
+        "programs": len(res["groups"]), "multi_module_projects": imp_cases, "multi_module_ir_entry_changes": len(imp_new), "traces_validated_against_impl": len(cases) + imp_cases, "disagreements_checked": len(corr_fail),
         "ir_changed_in_known_class": len(known), "ir_changed_new": len(new), "second_generation_differs": len(regen_diff),
         "ir_unchanged_cases": len(cases) - len(changed), "print_assumptions": pa, "broken_obligation_files": broken,
         "samples": [known[0] if known else cases[0][1]]},
-        wall_s=T.s, assumptions=["single-file environment"], violations=len(V.violations))
+        wall_s=T.s, assumptions=["single-file environment for the graph suite; multi-module projects of the import suite for IR entry sets and model-predicted mutation"], violations=len(V.violations))
     return V.finish()
